@@ -336,6 +336,10 @@ func c17(ctx *Ctx) {
 				for _, dv := range devs {
 					ctx.Run.Known(dv, fmt.Sprintf("%s doc=%s model=%s json=%s", pr.sc.ID, pr.doc.Text, pr.tv, jv), replay)
 				}
+			} else if pr.sc.Axes["leaf"] == "object-with-typed-additional" && strings.Contains(pr.doc.Class, "null") && ctx.Run.Listed("NULL_TO_ADDL_STRUCT_ERRORS") &&
+				strings.Contains(pr.j.Err+pr.j.Panic, "reflect.Set: value of type map[string]interface {}") {
+				// null for an object with declared properties and typed additional properties (KF-C03-3; see c09.go)
+				ctx.Run.Known("NULL_TO_ADDL_STRUCT_ERRORS", fmt.Sprintf("%s doc=%s model=%s json=%s", pr.sc.ID, pr.doc.Text, pr.tv, jv), replay)
 			} else if devs, ok := attribute(pr.m, pr.doc.V, ov, append(append([]string{}, listedAll...), c17Unjudged...)); ok && anyIn(devs, c17Unjudged) {
 				// string / numeric / array-length constraints on map values and typed additional properties: no property
 				// statement covers that cell (C05 / C06 name property and definition positions, C07 array elements), so the
